@@ -373,12 +373,14 @@ class Explorer:
                 en = enabled.reshape(-1)
                 lastf = is_last.reshape(-1)
                 new_rows = []
+                child_ids = -np.ones((m, self.nA), np.int64)
                 for r in np.nonzero(en)[0]:
                     i, a = divmod(int(r), self.nA)
                     k = rb[r].tobytes()
                     cpost = int(par.post[i]) + (1 if (lastf[r] or par.post[i] > 0) else 0)
                     cdev = int(par.dev[i]) + int(devcost[i, a])
                     if k in seen:
+                        child_ids[i, a] = seen[k]
                         # same state reached again in this layer with fewer deviations: relax
                         j = pending.get(k)
                         if j is not None and cdev < nxt_dev[j]:
@@ -386,6 +388,7 @@ class Explorer:
                         continue
                     nid = len(self.parent)
                     seen[k] = nid
+                    child_ids[i, a] = nid
                     self.parent.append(int(par.ids[i]))
                     self.act.append(a)
                     self.depth.append(depth)
@@ -397,6 +400,9 @@ class Explorer:
                     nxt_ids.append(nid)
                     nxt_post.append(cpost)
                     nxt_dev.append(cdev)
+                for mon in self.monitors:
+                    if hasattr(mon, "after_edges"):
+                        mon.after_edges(par, self.actions, children, enabled, child_ids)
                 if new_rows:
                     idx = np.array(new_rows)
                     nxt_state.append(t_index(flat_s, idx))
